@@ -42,7 +42,8 @@ LOOPS_MORE = [(0, 7, 1), (0, 8, 1), (1, 1, 1), (3, 2, 1), (0, 7, 3), (1, 8, 2)]
 # reads through a view taken outside the loop. late: the output subview is computed right before the last stage instead of with the other index computations.
 # trail: a conditional copy follows the last barrier of the body.
 # skip: the compute stage 2 additionally reads the buffer stage 0 wrote (producer and consumer two stages apart; needs S >= 3 and a compute stage 2)
-MIDS = ["alloc", "mi", "mc", "mi2", "mc2", "lv", "late", "trail", "skip"]
+# mwhole: stage 0 writes tile i of M, the compute stage 1 reads the WHOLE of M (one index-dependent and one loop-invariant view of one buffer)
+MIDS = ["alloc", "mi", "mc", "mi2", "mc2", "lv", "late", "trail", "skip", "mwhole"]
 SV0 = "memref<1xi32, strided<[1]>>"
 
 
@@ -59,6 +60,8 @@ def space(tier):
                                     if mid != "alloc" and tier == "quick" and (extra or dyn or loop[1] not in (0, 2, 3, 5)):
                                         continue
                                     if mid == "skip" and (S < 3 or first != "C"):
+                                        continue
+                                    if mid == "mwhole" and first != "D":
                                         continue
                                     if dyn in (2, 4) and tier == "quick" and (extra or loop not in ((0, 5, 1), (2, 6, 1), (0, 6, 2), (0, 0, 1))):
                                         continue
@@ -95,7 +98,7 @@ def build(case):
     # the buffer between stage 0 and stage 1: a local allocation, or a tile of the function argument M selected by the index computations
     # (mi: tile i, mc: the same tile 0 in every iteration; mi2 / mc2: producer and consumer use two separate subviews of that tile)
     for k in range(S - 1):
-        if k == 0 and mid in ("mi", "mc", "mi2", "mc2", "lv"):
+        if k == 0 and mid in ("mi", "mc", "mi2", "mc2", "lv", "mwhole"):
             continue
         lines.append(f"  %L{k} = memref.alloc() : {MT1}")
     if mid in ("mc", "mc2"):
@@ -130,6 +133,9 @@ def build(case):
     mid_w = mid_r = ("%L0", MT1)
     if mid == "lv":
         mid_r = ("%lv", SV0)
+    if mid == "mwhole":
+        lines.append(f"    %mw = memref.subview %M[%i] [1] [1] : {MTT} to {SV}")
+        mid_w, mid_r = ("%mw", SV), ("%M", MTT)
     if mid in ("mi", "mc", "mi2", "mc2"):
         sel = "%i" if mid in ("mi", "mi2") else "%cm"
         lines.append(f"    %mw = memref.subview %M[{sel}] [1] [1] : {MTT} to {SV}")
